@@ -116,19 +116,29 @@ def run_verus_unit(unit, work, seed=None, extra_smt=None):
         r = run_verus_unit_once(unit, work, seed, force)
         new = set(r.pop('unsupported_fns', [])) - force
         if not new:
-            return r
+            break
         force |= new
+    if any(t.startswith('resource:') for t in r.get('tool_errors', [])):
+        # a function ran out of solver budget (never on the unchanged tree): one retry with four times the budget, so that
+        # a genuinely failing obligation is reported as such instead of as "inconclusive"
+        r2 = run_verus_unit_once(unit, work, seed, force, rlimit=str(int(float(VERUS_RLIMIT) * 4)))
+        r2.pop('unsupported_fns', None)
+        r2['rlimit_retry'] = True
+        return r2
     return r
 
 
-def run_verus_unit_once(unit, work, seed, force):
+def run_verus_unit_once(unit, work, seed, force, rlimit=None):
     t0 = time.time()
     try:
         out_rs, meta = vx.build_unit(unit, work, force_external=force)
     except vx.LostAnchor as e:
-        raise Inconclusive("lost anchor in unit %s: %s" % (unit, e))
+        # the contracts no longer find the code they are written for: the unit is unverifiable (undecided); the caller
+        # tries the native finders of the property and otherwise reports Inconclusive (exit 2)
+        return dict(unit=unit, verified=0, errors=0, failures=[], tool_errors=["lost anchor: %s" % e], fstats=[], meta=None,
+                    wall_s=round(time.time() - t0, 2), smt_ms=0, unsupported_fns=[])
     cmd = ['verus', out_rs, '--output-json', '--time-expanded', '--multiple-errors', '50',
-           '--error-format=json', '--rlimit', VERUS_RLIMIT, '--num-threads', '8']
+           '--error-format=json', '--rlimit', rlimit or VERUS_RLIMIT, '--num-threads', '8']
     if seed is not None:
         cmd += ['--smt-option', 'smt.random_seed=%d' % seed]
     r = sh(cmd, cwd=work)
